@@ -100,7 +100,7 @@ class Obligation:
 
 
 class Engine:
-    def __init__(self, registry=None, max_paths=20000, inline_depth=12):
+    def __init__(self, registry=None, max_paths=20000, inline_depth=40):
         self.registry = registry or {}
         self.mods = {}
         self.max_paths = max_paths
@@ -413,11 +413,17 @@ class Engine:
     def lookup_name(self, name, env):
         e = env
         if name in e.locals:
-            return e.locals[name]
+            v = e.locals[name]
+            if isinstance(v, VLazy):
+                v = self.module_attr(v.mod, v.name)
+            return v
         c = e.closure
         while c is not None:
             if name in c.locals:
-                return c.locals[name]
+                v = c.locals[name]
+                if isinstance(v, VLazy):
+                    v = self.module_attr(v.mod, v.name)
+                return v
             c = c.closure
         g = env.mod.globals
         if g is not None and name in g and g is not e.locals:
@@ -1274,6 +1280,11 @@ class Engine:
                 out.append(self.eval(node.elt, sub))
         return self.alloc(HList(out))
 
+    def ex_GeneratorExp(self, node, env):
+        # evaluated eagerly (sound for the side-effect free element expressions of this code base; the consumer --
+        # tuple(), list(), join, any/all -- iterates it completely and at once)
+        return self.ex_ListComp(node, env)
+
     def ex_Call(self, node, env):
         if self.spec_mode and isinstance(node.func, ast.Name) and node.func.id == 'old':
             key = ast.dump(node.args[0])
@@ -1308,6 +1319,12 @@ class Engine:
             return self.call(fn.fn, [fn.self] + list(args), kwargs, node)
         if isinstance(fn, VFn):
             c = self.registry.get(fn.qual)
+            cur = self.cur_contract
+            if cur is not None:
+                # a caller may name a specific variant of the callee's contract ('qual#variant') in its uses
+                for u in cur.uses:
+                    if u.startswith(fn.qual + '#') and u in self.registry and not (fn.qual == cur.func and self.depth == 0):
+                        return self.apply_contract(self.registry[u], fn, args, kwargs, node)
             if c is not None and self.use_contract_for(fn):
                 return self.apply_contract(c, fn, args, kwargs, node)
             return self.inline(fn, args, kwargs)
